@@ -24,7 +24,35 @@ fn c02_export(stream: &Stream, rep: &mut Rep) -> Result<(), String> {
         return Ok(());
     }
     let sb = Sandbox::new("c02bin");
-    std::fs::write(sb.path("in.dlt"), &enc.bytes).map_err(|e| e.to_string())?;
+    // in a third of the cases the input is a file in normal form whose payloads contain frame markers
+    let (msgs, in_bytes) = if stream.elems.len() % 3 == 0 {
+        let mut msgs = msgs;
+        let mut b = vec![];
+        for (k, m) in msgs.iter_mut().enumerate() {
+            // (not into near-maximum messages: that is the input class of the listed finding F04)
+            if m.payload.len() >= 4 && m.payload.len() < 65_400 && k % 2 == 0 {
+                let p = (k * 7) % (m.payload.len() - 3);
+                m.payload[p..p + 4].copy_from_slice(if k % 4 == 0 { b"DLT\x01" } else { b"DLS\x01" });
+            }
+            m.to_write(&mut b).map_err(|e| e.to_string())?;
+        }
+        rep.label("frame_marker_in_payload");
+        // what the file holds, as read back
+        let msgs: Vec<DltMessage> = {
+            let mut v = vec![];
+            let mut off = 0;
+            while off < b.len() {
+                let (n, m) = adlt::dlt::parse_dlt_with_storage_header(v.len() as u32, &b[off..]).map_err(|e| format!("harness: normal form file does not parse: {:?}", e.kind()))?;
+                v.push(m);
+                off += n;
+            }
+            v
+        };
+        (msgs, b)
+    } else {
+        (msgs, enc.bytes.clone())
+    };
+    std::fs::write(sb.path("in.dlt"), &in_bytes).map_err(|e| e.to_string())?;
     run_convert(&["-o".into(), s(&sb.path("out1.dlt")), s(&sb.path("in.dlt"))])?;
     let b1 = std::fs::read(sb.path("out1.dlt")).map_err(|e| format!("no output file: {}", e))?;
     let out: Vec<DltMessage> = DltMessageIterator::new(0, std::io::Cursor::new(&b1[..])).collect();
